@@ -501,6 +501,50 @@ def r11_downcast_provenance(chk, prog, rule='R11'):
     chk.require(n >= 2, 'downcasts to the sub-group class in Handler: %d' % n)
 
 
+def r12_erase_found_only(chk, prog, rule='R12'):
+    """R12: container.erase( it) with an iterator that is the result of a search is executed only when the search
+    found something: the call is reachable only over an edge on which `it != end()` is known (erase( end()) destroys
+    an element that does not exist - invalid memory access, not an exception).  Iterators that are parameters are the
+    caller's obligation."""
+    from ..rules import implied_edges
+    n = 0
+    for f in prog.functions:
+        if f.body is None or not f.file.startswith('/') or '/src/' not in f.file or '/test/' in f.file:
+            continue
+        if not any(seg in f.file for seg in ('/prog_args/', '/appl/')):
+            continue
+        for c in f.calls():
+            if c.get('k') != 'CXXMemberCallExpr' or (c.get('callee') or '').split('::')[-1] != 'erase':
+                continue
+            args = [a for a in call_args(c) if not a.get('defarg')]
+            if len(args) != 1:
+                continue
+            v = strip_all_casts(args[0])
+            while v.get('k') in ('CXXConstructExpr', 'MaterializeTemporaryExpr', 'CXXBindTemporaryExpr') and \
+                    len(children(v)) == 1:
+                v = strip_all_casts(children(v)[0])
+            if v.get('k') != 'DeclRefExpr' or v['ref'].get('sto') != 'local' or \
+                    'iterator' not in (v['ref'].get('dt') or '') and 'iterator' not in (v.get('t') or ''):
+                continue
+            name = v['ref'].get('name')
+
+            def cmp_end(x, op):
+                if x.get('k') not in ('CXXOperatorCallExpr', 'BinaryOperator') or x.get('op') != op:
+                    return False
+                return any(y.get('k') == 'DeclRefExpr' and y['ref'].get('name') == name for y in walk(x)) and \
+                    any(y.get('k') in CALL_KINDS and (y.get('callee') or '').split('::')[-1] in ('end', 'cend')
+                        for y in walk(x))
+            edges = implied_edges(f, lambda x: cmp_end(x, '!='), True) | \
+                implied_edges(f, lambda x: cmp_end(x, '=='), False)
+            pos = f.cfg.position(c)
+            guarded = any(b in f.cfg.succ[a] and f.cfg.guarded_by_edge(pos, a, f.cfg.succ[a].index(b))
+                          for a, b in edges)
+            n += 1
+            chk.check(guarded, rule, f.name, 'erase( %s) only after the search was successful (%s != end())' % (
+                name, name), f.loc(c), 'the call is reachable without the test: erase( end()) is undefined behaviour')
+    chk.require(n >= 3, 'erase( iterator) sites in the argument handling: %d' % n)
+
+
 def run(chk):
     drv = os.path.join(VERIF, 'drivers', 'prog_args_dest.cpp')
     units = units_matching('library/prog_args/', 'library/appl/arg_string_2_array.cpp', 'library/common/') + [drv]
@@ -543,6 +587,8 @@ def run(chk):
     r10_escaping_lambdas(chk, prog)
     chk.rule('R11', 'downcasts to the sub-group argument class only of pointers from the sub-group container', 2)
     r11_downcast_provenance(chk, prog)
+    chk.rule('R12', 'erase( iterator) only with the iterator of a successful search', 3)
+    r12_erase_found_only(chk, prog)
     chk.rule('R6', 'ArgListIterator: the cursor invariant (four cases) is established and preserved; every argv[ i] '
              'and word[ j] access is inside', 40)
     from . import c04_cursor
